@@ -74,12 +74,30 @@ structure Outcome (cfg : CfgEv ℚ) (orc : OracleEv ℚ) (s : Sys ℚ) (b : Book
       o.sys.ts = (Loop.integrate cfg.loop s' root (orc k' t' h').nested nf).sys.ts ∧
       o.nestedReqs = (Loop.integrate cfg.loop s' root (orc k' t' h').nested nf).reqs
 
-theorem outcome_fail (cfg : CfgEv ℚ) (orc : OracleEv ℚ) (s s' : Sys ℚ) (b b' : Book ℚ) (st : Status) (reqs nreqs : List (Req ℚ)) (k : Nat)
+theorem outcome_fail (cfg : CfgEv ℚ) (orc : OracleEv ℚ) (s s' : Sys ℚ) (b b' : Book ℚ) (kn : List ℚ) (st : Status) (reqs nreqs : List (Req ℚ)) (k : Nat)
     (hts : ∃ news, s'.ts = news ++ s.ts) (hev : ∃ more, b'.events = b.events ++ more)
     (hst : s'.t0 = s.t0 ∧ s'.tf = s.tf ∧ s'.dt0 = s.dt0) :
-    Outcome cfg orc s b (failEv s' b' st reqs nreqs k) :=
+    Outcome cfg orc s b (failEv s' b' kn st reqs nreqs k) :=
   { samples := hts, events := hev, stop_status := fun h => by simp [failEv] at h,
     plain_status := fun _ h => by simp [failEv] at h, static := hst, stop_grid := fun h => by simp [failEv] at h }
+
+/-- the outcome of the rest of the loop, seen from the state before an accepted, counted step -/
+theorem outcome_step (cfg : CfgEv ℚ) (orc : OracleEv ℚ) (s s2 : Sys ℚ) (b b2 : Book ℚ) (o : OutEv ℚ) (x : ℚ)
+    (h : Outcome cfg orc s2 b2 o) (hts : s2.ts = x :: s.ts) (hev : ∃ more, b2.events = b.events ++ more)
+    (hst : s2.status = s.status) (hstat : s2.t0 = s.t0 ∧ s2.tf = s.tf ∧ s2.dt0 = s.dt0) : Outcome cfg orc s b o := by
+  obtain ⟨news, hn⟩ := h.samples
+  obtain ⟨more, hm⟩ := h.events
+  obtain ⟨more0, hm0⟩ := hev
+  exact { samples := ⟨news ++ [x], by rw [hn, hts]; simp⟩,
+          events := ⟨more0 ++ more, by rw [hm, hm0, List.append_assoc]⟩,
+          stop_status := h.stop_status,
+          plain_status := fun h1 h2 => by rw [h.plain_status h1 h2, hst],
+          static := by
+            obtain ⟨a, b', c⟩ := h.static
+            exact ⟨by rw [a, hstat.1], by rw [b', hstat.2.1], by rw [c, hstat.2.2]⟩,
+          stop_grid := fun hs => by
+            obtain ⟨s', root, k', t', h', nf, ⟨mid, hmid⟩, hne', hdt', e1, e2⟩ := h.stop_grid hs
+            exact ⟨s', root, k', t', h', nf, ⟨mid ++ [x], by rw [hmid, hts]; simp⟩, hne', hdt', e1, e2⟩ }
 
 theorem integrate_static' (cfg : Cfg ℚ) (s : Sys ℚ) (target : ℚ) (orc : Oracle ℚ) (fuel : Nat) (hne : s.ts ≠ []) :
     (integrate cfg s target orc fuel).sys.t0 = s.t0 ∧ (integrate cfg s target orc fuel).sys.tf = s.tf ∧
@@ -88,35 +106,35 @@ theorem integrate_static' (cfg : Cfg ℚ) (s : Sys ℚ) (target : ℚ) (orc : Or
   ⟨h.t0, h.tf, h.dt0⟩
 
 theorem loopEv_outcome (cfg : CfgEv ℚ) (target : ℚ) (orc : OracleEv ℚ) :
-    ∀ (fuel k : Nat) (s : Sys ℚ) (b : Book ℚ) (reqs : List (Req ℚ)), s.ts ≠ [] →
-      Outcome cfg orc s b (loopEv cfg target orc fuel k s b reqs) := by
+    ∀ (fuel k : Nat) (s : Sys ℚ) (b : Book ℚ) (kn : List ℚ) (reqs : List (Req ℚ)), s.ts ≠ [] →
+      Outcome cfg orc s b (loopEv cfg target orc fuel k s b kn reqs) := by
   intro fuel
   induction fuel with
   | zero =>
-    intro k s b reqs _
+    intro k s b kn reqs _
     exact { samples := ⟨[], rfl⟩, events := ⟨[], by simp [loopEv]⟩, stop_status := fun h => by simp [loopEv] at h,
             plain_status := fun _ _ => rfl, static := ⟨rfl, rfl, rfl⟩, stop_grid := fun h => by simp [loopEv] at h }
   | succ n ih =>
-    intro k s b reqs hne
+    intro k s b kn reqs hne
     unfold loopEv
     by_cases hg : DV.Loop.guard cfg.loop target s = true
     · simp only [hg, Bool.not_true, Bool.false_eq_true, if_false]
       cases hret : (orc k s.tcur (DV.Loop.request target s)).base.ret with
-      | raise => exact outcome_fail cfg orc s s b b 3 _ _ _ ⟨[], rfl⟩ ⟨[], by simp⟩ ⟨rfl, rfl, rfl⟩
-      | interrupt => exact outcome_fail cfg orc s s b b 4 _ _ _ ⟨[], rfl⟩ ⟨[], by simp⟩ ⟨rfl, rfl, rfl⟩
+      | raise => exact outcome_fail cfg orc s s b b _ 3 _ _ _ ⟨[], rfl⟩ ⟨[], by simp⟩ ⟨rfl, rfl, rfl⟩
+      | interrupt => exact outcome_fail cfg orc s s b b _ 4 _ _ _ ⟨[], rfl⟩ ⟨[], by simp⟩ ⟨rfl, rfl, rfl⟩
       | ok newDt dT =>
         simp only
         cases hgr : growth target s dT with
-        | none => exact outcome_fail cfg orc s s b b 3 _ _ _ ⟨[], rfl⟩ ⟨[], by simp⟩ ⟨rfl, rfl, rfl⟩
+        | none => exact outcome_fail cfg orc s s b b _ 3 _ _ _ ⟨[], rfl⟩ ⟨[], by simp⟩ ⟨rfl, rfl, rfl⟩
         | some g1 =>
           simp only
           by_cases her : (orc k s.tcur (DV.Loop.request target s)).evRaise = true
           · simp only [her, if_true]
-            exact outcome_fail cfg orc s _ b b 3 _ _ _ ⟨[], rfl⟩ ⟨[], by simp⟩ ⟨rfl, rfl, rfl⟩
+            exact outcome_fail cfg orc s _ b b _ 3 _ _ _ ⟨[], rfl⟩ ⟨[], by simp⟩ ⟨rfl, rfl, rfl⟩
           · simp only [her, Bool.false_eq_true, if_false]
             cases hg2 : growthEv target s dT (s.cap + g1)
                 (handle (stepSign s.tcur (s.tcur + dT)) (orc k s.tcur (DV.Loop.request target s)).probes).1.length with
-            | none => exact outcome_fail cfg orc s _ b b 3 _ _ _ ⟨[], rfl⟩ ⟨[], by simp⟩ ⟨rfl, rfl, rfl⟩
+            | none => exact outcome_fail cfg orc s _ b b _ 3 _ _ _ ⟨[], rfl⟩ ⟨[], by simp⟩ ⟨rfl, rfl, rfl⟩
             | some g2 =>
               simp only
               have hrec := DVP.Record.record_prefix s.tcur (s.tcur + dT) cfg.dupTol
@@ -133,7 +151,7 @@ theorem loopEv_outcome (cfg : CfgEv ℚ) (target : ℚ) (orc : OracleEv ℚ) :
                 by_cases hnr : nestedRaised (Loop.integrate cfg.loop { s with cap := s.cap + g1 + g2 } root
                     (orc k s.tcur (DV.Loop.request target s)).nested (orc k s.tcur (DV.Loop.request target s)).nestedFuel) = true
                 · simp only [hnr, if_true]
-                  exact outcome_fail cfg orc s _ b _ _ _ _ _ hsuf hrec hstat
+                  exact outcome_fail cfg orc s _ b _ _ _ _ _ _ hsuf hrec hstat
                 · simp only [hnr, Bool.false_eq_true, if_false]
                   by_cases hcb : (orc k s.tcur (DV.Loop.request target s)).base.cbRaise = true
                   · simp only [hcb, if_true]
@@ -149,33 +167,16 @@ theorem loopEv_outcome (cfg : CfgEv ℚ) (target : ℚ) (orc : OracleEv ℚ) :
               · simp only [hterm, Bool.false_eq_true, if_false]
                 cases hg3 : growthEv target s dT (s.cap + g1 + g2)
                     (handle (stepSign s.tcur (s.tcur + dT)) (orc k s.tcur (DV.Loop.request target s)).probes).1.length with
-                | none => exact outcome_fail cfg orc s _ b _ 3 _ _ _ ⟨[], rfl⟩ hrec ⟨rfl, rfl, rfl⟩
+                | none => exact outcome_fail cfg orc s _ b _ _ 3 _ _ _ ⟨[], rfl⟩ hrec ⟨rfl, rfl, rfl⟩
                 | some g3 =>
                   simp only
                   by_cases hcb : (orc k s.tcur (DV.Loop.request target s)).base.cbRaise = true
                   · simp only [hcb, if_true]
-                    exact outcome_fail cfg orc s _ b _ 3 _ _ _ ⟨[s.tcur + dT], rfl⟩ hrec ⟨rfl, rfl, rfl⟩
+                    exact outcome_fail cfg orc s _ b _ _ 3 _ _ _ ⟨[s.tcur + dT], rfl⟩ hrec ⟨rfl, rfl, rfl⟩
                   · simp only [hcb, Bool.false_eq_true, if_false]
-                    have := ih (k + 1)
-                      (finishIter target (isFinal target s) { s with ts := (s.tcur + dT) :: s.ts, cap := s.cap + g1 + g2 + g3 }
-                        (orc k s.tcur (DV.Loop.request target s)).base newDt)
-                      (record s.tcur (s.tcur + dT) cfg.dupTol b
-                        (handle (stepSign s.tcur (s.tcur + dT)) (orc k s.tcur (DV.Loop.request target s)).probes).1)
-                      ({ t := s.tcur, h := request target s, final := isFinal target s, cap := s.cap } :: reqs)
-                      (by simp [finishIter])
-                    obtain ⟨news, hn⟩ := this.samples
-                    obtain ⟨more, hm⟩ := this.events
-                    obtain ⟨more0, hm0⟩ := hrec
-                    exact { samples := ⟨news ++ [s.tcur + dT], by rw [hn]; simp [finishIter]⟩,
-                            events := ⟨more0 ++ more, by rw [hm, hm0, List.append_assoc]⟩,
-                            stop_status := this.stop_status,
-                            plain_status := fun h1 h2 => by rw [this.plain_status h1 h2]; simp [finishIter],
-                            static := by
-                              obtain ⟨a, b', c⟩ := this.static
-                              exact ⟨by rw [a]; simp [finishIter], by rw [b']; simp [finishIter], by rw [c]; simp [finishIter]⟩,
-                            stop_grid := fun h => by
-                              obtain ⟨s', root, k', t', h', nf, ⟨mid, hmid⟩, hne', hdt', e1, e2⟩ := this.stop_grid h
-                              exact ⟨s', root, k', t', h', nf, ⟨mid ++ [s.tcur + dT], by rw [hmid]; simp [finishIter]⟩, hne', hdt', e1, e2⟩ }
+                    exact outcome_step cfg orc s _ b _ _ (s.tcur + dT)
+                      (ih (k + 1) _ _ _ _ (by simp [finishIter])) (by simp [finishIter]) hrec (by simp [finishIter])
+                      ⟨by simp [finishIter], by simp [finishIter], by simp [finishIter]⟩
     · have hg' : DV.Loop.guard cfg.loop target s = false := by simpa using hg
       simp only [hg', Bool.not_false, if_true]
       exact { samples := ⟨[], rfl⟩, events := ⟨[], by simp⟩, stop_status := fun h => by simp at h,
@@ -221,19 +222,19 @@ theorem growth_spec (target : ℚ) (s : Sys ℚ) (dT : ℚ) (g : Nat) (h : growt
 exactly what the plain loop does with the same integrator and callbacks — same samples, step size, status,
 buffer, requests — and records nothing. -/
 theorem quiet_loop_is_plain_loop (cfg : CfgEv ℚ) (target : ℚ) (orc : OracleEv ℚ) (hq : Quiet orc) :
-    ∀ (fuel k : Nat) (s : Sys ℚ) (b : Book ℚ) (reqs : List (Req ℚ)), s.ts ≠ [] → s.ts.length ≤ s.cap →
-      (loopEv cfg target orc fuel k s b reqs).sys = (loop cfg.loop target (baseOrc orc) fuel k s reqs).sys ∧
-      (loopEv cfg target orc fuel k s b reqs).reqs = (loop cfg.loop target (baseOrc orc) fuel k s reqs).reqs ∧
-      (loopEv cfg target orc fuel k s b reqs).guardExit = (loop cfg.loop target (baseOrc orc) fuel k s reqs).guardExit ∧
-      (loopEv cfg target orc fuel k s b reqs).iters = (loop cfg.loop target (baseOrc orc) fuel k s reqs).iters ∧
-      (loopEv cfg target orc fuel k s b reqs).book = b ∧
-      (loopEv cfg target orc fuel k s b reqs).stopped = false ∧
-      (loopEv cfg target orc fuel k s b reqs).nestedReqs = [] := by
+    ∀ (fuel k : Nat) (s : Sys ℚ) (b : Book ℚ) (kn : List ℚ) (reqs : List (Req ℚ)), s.ts ≠ [] → s.ts.length ≤ s.cap →
+      (loopEv cfg target orc fuel k s b kn reqs).sys = (loop cfg.loop target (baseOrc orc) fuel k s reqs).sys ∧
+      (loopEv cfg target orc fuel k s b kn reqs).reqs = (loop cfg.loop target (baseOrc orc) fuel k s reqs).reqs ∧
+      (loopEv cfg target orc fuel k s b kn reqs).guardExit = (loop cfg.loop target (baseOrc orc) fuel k s reqs).guardExit ∧
+      (loopEv cfg target orc fuel k s b kn reqs).iters = (loop cfg.loop target (baseOrc orc) fuel k s reqs).iters ∧
+      (loopEv cfg target orc fuel k s b kn reqs).book = b ∧
+      (loopEv cfg target orc fuel k s b kn reqs).stopped = false ∧
+      (loopEv cfg target orc fuel k s b kn reqs).nestedReqs = [] := by
   intro fuel
   induction fuel with
-  | zero => intro k s b reqs _ _; simp [loopEv, loop]
+  | zero => intro k s b kn reqs _ _; simp [loopEv, loop]
   | succ n ih =>
-    intro k s b reqs hne hcap
+    intro k s b kn reqs hne hcap
     have hlen : s.counter + 1 = s.ts.length := by
       unfold Sys.counter
       have : 0 < s.ts.length := List.length_pos_of_ne_nil hne
@@ -272,7 +273,7 @@ theorem quiet_loop_is_plain_loop (cfg : CfgEv ℚ) (target : ℚ) (orc : OracleE
                 advance target s (orc k s.tcur (DV.Loop.request target s)).base newDt dT g1 := by
               cases hd : (orc k s.tcur (DV.Loop.request target s)).base.cbDt <;> simp [finishIter, advance, hd]
             rw [hadv]
-            refine ih (k + 1) _ b _ (by simp [advance]) ?_
+            refine ih (k + 1) _ b _ _ (by simp [advance]) ?_
             simp only [advance, List.length_cons]
             by_cases hc : s.cap ≤ s.counter + 1
             · have := gs1 hc; omega
@@ -299,18 +300,18 @@ callback, inside the nested call of a terminal event, interrupts — the samples
 the call are kept in place; a call ended by a terminal event without a fault reports status 2; and after a
 terminal stop the samples are those of the nested `integrate(root)` started from the samples before the
 event step. -/
-theorem integrateEv_outcome (cfg : CfgEv ℚ) (s : Sys ℚ) (evs : List (Nat × ℚ)) (nEvents : Nat) (target : ℚ)
+theorem integrateEv_outcome (cfg : CfgEv ℚ) (s : Sys ℚ) (evs : List (Nat × ℚ)) (kn : List ℚ) (nEvents : Nat) (target : ℚ)
     (orc : OracleEv ℚ) (fuel : Nat) (hne : s.ts ≠ []) :
-    (∃ news, (integrateEv cfg s evs nEvents target orc fuel).sys.ts = news ++ s.ts) ∧
-    (∃ more, (integrateEv cfg s evs nEvents target orc fuel).book.events = evs ++ more) ∧
-    ((integrateEv cfg s evs nEvents target orc fuel).stopped = true →
-      (integrateEv cfg s evs nEvents target orc fuel).guardExit = true →
-      (integrateEv cfg s evs nEvents target orc fuel).sys.status = 2) ∧
-    ((integrateEv cfg s evs nEvents target orc fuel).stopped = true →
+    (∃ news, (integrateEv cfg s evs kn nEvents target orc fuel).sys.ts = news ++ s.ts) ∧
+    (∃ more, (integrateEv cfg s evs kn nEvents target orc fuel).book.events = evs ++ more) ∧
+    ((integrateEv cfg s evs kn nEvents target orc fuel).stopped = true →
+      (integrateEv cfg s evs kn nEvents target orc fuel).guardExit = true →
+      (integrateEv cfg s evs kn nEvents target orc fuel).sys.status = 2) ∧
+    ((integrateEv cfg s evs kn nEvents target orc fuel).stopped = true →
       ∃ (s' : Sys ℚ) (root : ℚ) (k' : Nat) (t' h' : ℚ) (nf : Nat),
         (∃ mid, s'.ts = mid ++ s.ts) ∧ s'.ts ≠ [] ∧ s'.dt ≠ 0 ∧
-        (integrateEv cfg s evs nEvents target orc fuel).sys.ts = (Loop.integrate cfg.loop s' root (orc k' t' h').nested nf).sys.ts ∧
-        (integrateEv cfg s evs nEvents target orc fuel).nestedReqs = (Loop.integrate cfg.loop s' root (orc k' t' h').nested nf).reqs) := by
+        (integrateEv cfg s evs kn nEvents target orc fuel).sys.ts = (Loop.integrate cfg.loop s' root (orc k' t' h').nested nf).sys.ts ∧
+        (integrateEv cfg s evs kn nEvents target orc fuel).nestedReqs = (Loop.integrate cfg.loop s' root (orc k' t' h').nested nf).reqs) := by
   unfold integrateEv
   by_cases hc : s.crashed = true
   · simp [hc]
@@ -325,19 +326,19 @@ theorem integrateEv_outcome (cfg : CfgEv ℚ) (s : Sys ℚ) (evs : List (Nat × 
         have o := loopEv_outcome cfg target orc fuel 0
           { s with dt := initialDt cfg.loop s target, cap := s.cap + n,
                    status := if s.status == 2 ∨ s.status == 3 ∨ s.status == 4 then 0 else s.status }
-          { last := List.replicate nEvents none, events := evs } [] hne
+          { last := List.replicate nEvents none, events := evs } kn [] hne
         refine ⟨o.samples, o.events, fun h1 h2 => ?_, fun h1 => o.stop_grid h1⟩
         rw [o.stop_status h1 h2]
         exact finalStatus_two _
 
 /-- a call with events in which no event function fails and no event passes the selection IS the plain call -/
-theorem quiet_call_is_plain_call (cfg : CfgEv ℚ) (s : Sys ℚ) (evs : List (Nat × ℚ)) (nEvents : Nat) (target : ℚ)
+theorem quiet_call_is_plain_call (cfg : CfgEv ℚ) (s : Sys ℚ) (evs : List (Nat × ℚ)) (kn : List ℚ) (nEvents : Nat) (target : ℚ)
     (orc : OracleEv ℚ) (fuel : Nat) (hq : Quiet orc) (hne : s.ts ≠ []) (hcap : s.ts.length ≤ s.cap) :
-    (integrateEv cfg s evs nEvents target orc fuel).sys = (Loop.integrate cfg.loop s target (baseOrc orc) fuel).sys ∧
-    (integrateEv cfg s evs nEvents target orc fuel).reqs = (Loop.integrate cfg.loop s target (baseOrc orc) fuel).reqs ∧
-    (integrateEv cfg s evs nEvents target orc fuel).guardExit = (Loop.integrate cfg.loop s target (baseOrc orc) fuel).guardExit ∧
-    (integrateEv cfg s evs nEvents target orc fuel).book.events = evs ∧
-    (integrateEv cfg s evs nEvents target orc fuel).stopped = false := by
+    (integrateEv cfg s evs kn nEvents target orc fuel).sys = (Loop.integrate cfg.loop s target (baseOrc orc) fuel).sys ∧
+    (integrateEv cfg s evs kn nEvents target orc fuel).reqs = (Loop.integrate cfg.loop s target (baseOrc orc) fuel).reqs ∧
+    (integrateEv cfg s evs kn nEvents target orc fuel).guardExit = (Loop.integrate cfg.loop s target (baseOrc orc) fuel).guardExit ∧
+    (integrateEv cfg s evs kn nEvents target orc fuel).book.events = evs ∧
+    (integrateEv cfg s evs kn nEvents target orc fuel).stopped = false := by
   unfold integrateEv Loop.integrate
   by_cases hc : s.crashed = true
   · simp [hc]
@@ -352,7 +353,7 @@ theorem quiet_call_is_plain_call (cfg : CfgEv ℚ) (s : Sys ℚ) (evs : List (Na
         obtain ⟨q1, q2, q3, _, q5, q6, _⟩ := quiet_loop_is_plain_loop cfg target orc hq fuel 0
           { s with dt := initialDt cfg.loop s target, cap := s.cap + n,
                    status := if s.status == 2 ∨ s.status == 3 ∨ s.status == 4 then 0 else s.status }
-          { last := List.replicate nEvents none, events := evs } [] hne (by simp only; omega)
+          { last := List.replicate nEvents none, events := evs } kn [] hne (by simp only; omega)
         refine ⟨?_, q2, q3, ?_, q6⟩
         · rw [q1, q3]
         · rw [q5]
